@@ -452,33 +452,44 @@ func run(cfg *lib.Config, res *lib.Result) {
 	}
 	sort.Strings(keys)
 	var sampled []pair
-	// structured expected kinds get three times the share of the others
-	weight := func(k string) int {
+	// half of the budget goes to pairs whose description has several mismatches or a mismatch below the
+	// subject ("deep:" buckets, by expected kind), 3/10 to the other non-assignable pairs, 2/10 to assignable
+	// pairs; within a group every (expected kind, actual kind) bucket gets the same share
+	groups := map[string][]string{}
+	for _, k := range keys {
+		g := "shallow"
 		if strings.HasPrefix(k, "deep:") {
-			return 6
+			g = "deep"
+		} else if strings.HasSuffix(k, "+") {
+			g = "assignable"
 		}
-		ek := k[:strings.Index(k, "<-")]
-		if strings.HasSuffix(k, "+") {
-			return 1
-		}
-		if ownDescriber[ek] {
-			return 3
-		}
-		return 1
+		groups[g] = append(groups[g], k)
 	}
-	total := 0
-	for _, k := range keys {
-		total += weight(k)
+	share := map[string]int{"deep": coqDesc * 5 / 10, "shallow": coqDesc * 3 / 10, "assignable": coqDesc * 2 / 10}
+	for _, g := range []string{"deep", "shallow", "assignable"} {
+		ks := groups[g]
+		if len(ks) == 0 {
+			continue
+		}
+		per := share[g] / len(ks)
+		if per < 1 {
+			per = 1
+		}
+		for _, k := range ks {
+			ps := buckets[k]
+			n := per
+			if g == "shallow" && ownDescriber[k[:strings.Index(k, "<-")]] {
+				n = 2 * per
+			}
+			for i := 0; i < n; i++ {
+				sampled = append(sampled, ps[rng.Intn(len(ps))])
+			}
+		}
 	}
-	for _, k := range keys {
-		n := coqDesc * weight(k) / total
-		if n < 1 {
-			n = 1
-		}
-		ps := buckets[k]
-		for i := 0; i < n; i++ {
-			sampled = append(sampled, ps[rng.Intn(len(ps))])
-		}
+	// shuffle so that every shard sees every group
+	for i := len(sampled) - 1; i > 0; i-- {
+		j := rng.Intn(i + 1)
+		sampled[i], sampled[j] = sampled[j], sampled[i]
 	}
 	shards := 4
 	for s := 0; s < shards; s++ {
